@@ -545,7 +545,7 @@ func main() {
 		os.Exit(code)
 	}
 	c.Rule = "history part: one case = one operation history over {add,update}x{u1,u2}x{K0,K1,K2}, delete{u1,u2}, editFileAndReload{A,B,duplicate-key,malformed}, reload, from the initial store {u1:K0}; after every operation the save debounce is let run (virtual 6 s) and the three views are compared: keys accepted by a real TCP handshake and a real UDP first packet (with attribution), keys listed by the API, keys in the store file (and loadable at restart). schedule part: 2-3 threads x 1-2 operations, same oracle at quiescence."
-	c.Assumptions = []string{"sequential consistency; scheduling points at lock/atomic/channel operations only (plain map accesses without synchronisation are not interleaved; see the free-running race pass in DESIGN.md)", "file view is not compared while the file on disk is an externally written document that failed to load"}
+	c.Assumptions = []string{"sequential consistency; scheduling points at lock/atomic/channel operations only (plain memory accesses between two synchronisation operations are not interleaved)", "file view is not compared while the file on disk is an externally written document that failed to load"}
 	depth := harness.Pick(c, 3, 4)
 	modes := []string{"both"}
 	sizes := []int{16}
